@@ -38,6 +38,30 @@ claim("C20",
       _TB + "Options are unknown function values that may write the options struct arbitrarily; integer overflow in duration arithmetic is assumed absent (wraps, never panics). "
       "Not decided: log SDK resolver chain, OTLP exporter option/env folds, wire behaviour.",
       "DESIGN.md 4 C20")
+claim("C04",
+      "Proof for every attribute list, limit and call order of the span mutators: bounded FIFO (evictedQueue.add for events and links) against a sequence view, per-event/-link attribute caps and dropped counts, "
+      "status precedence, SetName/addChild, nothing changes after End; in-place de-duplication over the shared backing array (keys unique, index map exact, no key lost, frame); over-capacity insert (keys unique, "
+      "limit never exceeded); SetAttributes (limit 0 drops all, count limit holds, fast-path count conservation); truncate (cut position has exactly `limit` runes before it, fast path only when the whole string fits).",
+      _TB + "Integer overflow of drop counters assumed absent. truncateAttr's string-slice path and SetAttributes' array frame are marked unchecked. Not decided: see evidence not_decided.",
+      "DESIGN.md 4 C04")
+claim("C05",
+      "Proof for every input slice and filter: after the stable sort the de-duplication loop leaves a strictly key-sorted (sorted and unique) suffix that becomes the set; filteredToFront partitions by the filter and keeps a strictly sorted kept part; "
+      "fixed-size array storage for 1..10 attributes equals the slice; Set.Filter leaves the original untouched (frame), keeps exactly the attributes satisfying the filter, returns the rest, loses nothing; "
+      "iterator and merge-iterator steps (first iterator wins on equal keys).",
+      _TB + "slices.SortStableFunc is a library model (sorted + stable permutation w.r.t. the comparator closure, which is itself proved to order by key). Reflect-built storage is behind trusted contracts. "
+      "Not decided: permutation/no-value-lost, last-wins, NaN reflexivity (see evidence).",
+      "DESIGN.md 4 C05")
+claim("C10",
+      "Lock-discipline proof per method of recordingSpan: every access to a guarded field happens with the span lock held (guarded-by obligations), locks are balanced on every path, and the lock invariant "
+      "ends[s] == (endTime set ? 1 : 0) over a ghost end-counter holds at every unlock - which is provable only if the recording check and the end-time store are in one critical section, so exactly one End wins in every interleaving; "
+      "processors and snapshot are called with no span lock held; mutators change nothing after End.",
+      _TB + "sync.Mutex gives mutual exclusion (assumed); a re-acquired lock havocs the guarded fields. End's no-panic and frame obligations are marked unchecked (third-party processors). Not decided: races outside guarded fields, tracer.Start child counting.",
+      "DESIGN.md 4 C10")
+claim("C19",
+      "Proof of Merge's case analysis for all resources: nil identities, the four-row schema URL table including the conflict error, the merge iterator is built with b first (b wins by the proved 'first iterator wins' step contract), "
+      "and every attribute the iterator yields reaches the new resource also on a conflict.",
+      _TB + "Not decided: the merged list as a full right-biased union and the algebraic laws (need a recursive merge specification), environment parsing, detectors.",
+      "DESIGN.md 4 C19")
 _todo = "check not built yet in this session (engine exists; contracts for this property's functions still to be written)"
-for _p in ["C01","C02","C04","C05","C06","C07","C08","C10","C11","C12","C15","C16","C17","C19"]:
+for _p in ["C01","C02","C06","C07","C08","C11","C12","C15","C16","C17"]:
     na(_p, _todo)
